@@ -130,24 +130,7 @@ func (s *Scheduler) runStage(stage *Stage) error {
 		return s.Schedule(stage.Pipeline)
 	}
 
-	t := stage.Task
-	if stage.Env != nil {
-		if t.Env == nil {
-			t.Env = stage.Env
-		} else {
-			t.Env = t.Env.Merge(stage.Env)
-		}
-	}
-
-	if stage.Variables != nil {
-		if t.Variables == nil {
-			t.Variables = stage.Variables
-		} else {
-			t.Variables = t.Env.Merge(stage.Variables)
-		}
-	}
-
-	return s.taskRunner.Run(stage.Task)
+	return s.taskRunner.Run(stage.task())
 }
 
 func checkStatus(p *ExecutionGraph, stage *Stage) (ready bool) {
